@@ -96,6 +96,11 @@ def generate(run_seed: int, tier: str) -> dict:
             rng.shuffle(ids)
         datas[f"D{i}"] = {"ids": ids, "container": core.weighted(rng, [("pandas", 6), ("dict", 2), ("arrow", 1)]),
                           "index": core.weighted(rng, [("rid", 3), ("range", 2), ("str", 1)])}
+    if swarm.random() < 0.5:
+        cats = [c for c in u["cols"] if u["cols"][c]["kind"] in ("text_object", "text_default", "category")]
+        nums = [c for c in u["cols"] if u["cols"][c]["kind"] in ("float", "int")]
+        flip = {"kind": "cat_to_num", "var": rng.choice(cats)} if cats and rng.random() < 0.5 else {"kind": "num_to_text", "var": rng.choice(nums), "dtype": "object"}
+        datas["DK"] = {"ids": rng.sample(range(n), min(n, rng.randint(6, 12))), "container": "pandas", "index": "range", "mutate": flip}
     if enable["bad_input"]:
         datas["DX"] = {"ids": rng.sample(range(n), min(n, 8)), "container": "pandas", "index": "range", "drop_col": rng.choice(sorted(u["cols"]))}
     contexts = {"C0": {"const": 2.0, "myfun": "double", "knots": [-0.5, 0.5]},
@@ -108,7 +113,7 @@ def generate(run_seed: int, tier: str) -> dict:
     for i in range(swarm.randint(2, 4)):
         f = world.gen_formula(rng, u, rich=swarm.random() < 0.8, structured_p=swarm.choice([0.0, 0.3, 0.5]), max_terms=swarm.choice([2, 3, 4]), force_ticked=True)
         if isinstance(f["spec"], str) and rng.random() < 0.3:
-            f["spec"] += rng.choice([" + myfun(x)", " + {x * const}", " + myfun(x):const", " + bs(x, knots=knots, extrapolation='extend')",
+            f["spec"] += rng.choice([" + lag(vec)", " + lag(vec, 2)", " + np.log(x)", " + np.sqrt(z):x" if "z" in u["cols"] else " + np.sqrt(x)", " + myfun(x)", " + {x * const}", " + myfun(x):const", " + bs(x, knots=knots, extrapolation='extend')",
                                      " + bs(x, knots=knots, degree=2, extrapolation='clip')"])
             f["uses_ctx"] = True
         frecipes.append(f)
@@ -152,7 +157,7 @@ def generate(run_seed: int, tier: str) -> dict:
         return {"lit": fi}, fi
 
     def data_ref() -> str:
-        return rng.choice([d for d in datas if d != "DX"])
+        return rng.choice([d for d in datas if d != "DX"] + [d for d in datas if d.startswith("D") and d[1:].isdigit()])
 
     def maybe_drop() -> Optional[str]:
         if not enable["drops"] or rng.random() > 0.35:
@@ -310,7 +315,7 @@ def client_fn_call(spec: Any, data: Any, opts: dict, ctx: dict, drop: Any) -> An
     const = ctx["const"]  # noqa: F841
     myfun = ctx["myfun"]  # noqa: F841
     flaky = ctx["flaky"]  # noqa: F841
-    usr_center, usr_sq, usr_offset, knots = ctx["usr_center"], ctx["usr_sq"], ctx["usr_offset"], ctx["knots"]  # noqa: F841
+    usr_center, usr_sq, usr_offset, knots, vec = ctx["usr_center"], ctx["usr_sq"], ctx["usr_offset"], ctx["knots"], ctx["vec"]  # noqa: F841
     if "center" in ctx:
         center = ctx["center"]  # noqa: F841
     if "scale" in ctx:
@@ -329,6 +334,16 @@ class World:
         self.sc = sc
         self.data: dict[str, Any] = {}
         self.ctx: dict[str, dict] = {}
+        self.vecs: dict[str, Any] = {}
+
+    def get_vec(self, data_name: str) -> Any:
+        """A caller-owned float64 array with one entry per row of the data object (persists across the side's calls)."""
+        import numpy as np
+
+        if data_name not in self.vecs:
+            n = len(self.sc["datas"][data_name]["ids"])
+            self.vecs[data_name] = np.round(np.random.Generator(np.random.PCG64(core.h64("vec", data_name) % (2**32))).normal(size=n), 3).astype(np.float64)
+        return self.vecs[data_name]
 
     def get_ctx(self, name: str) -> dict:
         if name not in self.ctx:
@@ -338,7 +353,7 @@ class World:
     def get_data(self, name: str) -> Any:
         if name not in self.data:
             r = self.sc["datas"][name]
-            obj = world.take(self.sc["universe"], r["ids"], container=r["container"], index=r["index"])
+            obj = world.take(self.sc["universe"], r["ids"], container=r["container"], index=r["index"], mutate=r.get("mutate"))
             if r.get("drop_col"):
                 obj = obj.drop(columns=[r["drop_col"]])
             self.data[name] = obj
@@ -423,6 +438,7 @@ def apply_op(sc: dict, op: dict, objs: dict, w: World, tracer: Any = None) -> di
                 fv = formula_value(sc, op["formula"], objs, op.get("append", ""))
                 data = w.get_data(op["data"])
                 ctx = make_context(w.get_ctx(op["ctx"]), op.get("fault"))
+                ctx["vec"] = w.get_vec(op["data"])
                 held["ctx"] = (ctx, dict(ctx))
                 drop = objs[op["drop"]] if op.get("drop") else None
                 kw = dict(op["opts"])
@@ -448,6 +464,7 @@ def apply_op(sc: dict, op: dict, objs: dict, w: World, tracer: Any = None) -> di
                 src = objs[op["src"]]
                 data = w.get_data(op["data"])
                 ctx = make_context(w.get_ctx(op["ctx"]), op.get("fault"))
+                ctx["vec"] = w.get_vec(op["data"])
                 held["ctx"] = (ctx, dict(ctx))
                 drop = objs[op["drop"]] if op.get("drop") else None
                 if tracer:
@@ -562,7 +579,7 @@ def matrix_digest(mm: Any, Structured: Any) -> Any:
 def formula_digest(f: Any, Structured: Any) -> Any:
     out = []
     for p, leaf in walk(f, Structured):
-        terms = [[fa.expr for fa in t.factors] for t in leaf]
+        terms = [[[fa.expr, fa.kind.value, fa.eval_method.value] for fa in t.factors] for t in leaf]
         out.append([list(map(str, p)), repr(leaf), terms, sorted(str(v) for v in leaf.required_variables)])
     return out
 
@@ -747,6 +764,7 @@ def execute(scenario: dict, env: Any) -> dict:
     sc = scenario
     oracle = env.resources["oracle"]
     calls0 = oracle.calls
+    np_err0 = np.geterr()
     w = World(sc)
     objs: dict[str, Any] = {}
     lineage: dict[str, list[int]] = {}
@@ -777,6 +795,17 @@ def execute(scenario: dict, env: Any) -> dict:
                 inv[key] = d
             elif inv[key] != d:
                 raise Violation("c18:input-mutated:data", {"data": name})
+        for dname, vec in w.vecs.items():
+            d = _md5(vec.tobytes())
+            key = "vec:" + dname
+            if key not in inv:
+                n_ = len(sc["datas"][dname]["ids"])
+                fresh = np.round(np.random.Generator(np.random.PCG64(core.h64("vec", dname) % (2**32))).normal(size=n_), 3).astype(np.float64)
+                inv[key] = _md5(fresh.tobytes())
+            if inv[key] != d:
+                raise Violation("c18:input-mutated:context", {"why": "a caller-owned numpy array placed in the context was modified in place", "data": dname})
+        if np.geterr() != np_err0:
+            raise Violation("c18:process-state-changed", {"numpy.geterr": np.geterr(), "at_start": np_err0})
         for name, vals in w.ctx.items():
             rec = sc["contexts"][name]
             if vals["knots"] != list(rec.get("knots", [-0.5, 0.5])) or vals["const"] != rec["const"]:
